@@ -37,6 +37,11 @@ def run_impl(lines):
 
 
 def model_line(l):
+    if l.startswith("13 "):
+        # payload type 3 (a zero-sized value with a destructor) is, for the model, the unit-error case with the value 0
+        hdr, body = l.split("|", 1)
+        rows = [r.split() for r in body.split(";") if r.strip()]
+        return hdr + "| " + " ; ".join(" ".join(["1", r[1], "0"] if r[0] == "3" else r) for r in rows)
     return "0 |" if l.startswith("101 ") else l
 
 
@@ -71,9 +76,9 @@ def gen_cases_rt(rng, tier):
     n = 4000 if tier == "quick" else 60000
     rows = []
     for x in BOUND:
-        rows += [[0, 0, x], [0, 1, x], [0, 2, x], [1, 0, x], [1, 3, x], [2, 0, x], [2, 3, x]]
+        rows += [[0, 0, x], [0, 1, x], [0, 2, x], [1, 0, x], [1, 3, x], [2, 0, x], [2, 3, x], [3, 0, x], [3, 3, x]]
     for _ in range(n):
-        t = rng.below(3)
+        t = rng.below(4)
         x = rng.range(-2 ** 31, 2 ** 31 - 1) if rng.chance(1, 2) else rng.range(-200, 200)
         shape = rng.choice([0, 1, 2]) if t == 0 else rng.choice([0, 3])
         rows.append([t, shape, x])
